@@ -101,7 +101,13 @@ def _cv_good(pubkey, params, data, ln):
         _CV_STATE["calls"] += 1
         n = _plen(params)
         if ln < n:
-            return errcode("ERR_BAD_CERT")
+            # a certificate that is only an identifier: the validator resolves it through its directory
+            q = _CV_STATE.get("dir", {}).get(ctypes.string_at(data, ln))
+            if q is None or len(q) != n:
+                return errcode("ERR_BAD_CERT")
+            if pubkey:
+                ctypes.memmove(pubkey, q, n)
+            return 0
         if pubkey:
             ctypes.memmove(pubkey, ctypes.string_at(data + (ln - n), n), n)
         return 0
@@ -503,6 +509,10 @@ def cert_data(env, cfg, who, view=None):
         q = (x + bytes(no))[:no] + (y + bytes(no))[:no]
         if Env.on_curve(c, int.from_bytes(q[:no], "little"), int.from_bytes(q[no:], "little")):
             raise Harness("othercurve point on curve")
+    if who in cfg.get("shortcert", "") and not mis:
+        ident = b"id" + who.encode() + b"\x01"            # 4 octets: shorter than l/4 - 8 on every curve
+        _CV_STATE.setdefault("dir", {})[ident] = q
+        return ident
     return name + q
 
 
@@ -1016,6 +1026,14 @@ def enum_run(tier, seed):
                         # M2 / M3 longer than RunA/RunB's 512-octet read block, never a multiple of 512
                         c["cpad"] = {"A": 300 + l, "B": 401}
                     out.append(c)
+                    if proto == "BSTS" and rep < 3:
+                        # certificates that are 4-octet identifiers (shorter than l/4 - 8): M1 is then longer than B's M3 and the
+                        # drivers' out buffer is sized by a MAX
+                        n += 1
+                        c = base_cfg(proto, l, kca, kcb, n + 11 * rep, ks=rep % 3)
+                        c["ts"] = "%s/run-short/%d" % (seed, n)
+                        c["shortcert"] = ("AB", "B", "A")[rep]
+                        out.append(c)
                 # tampered ones: compared with the step-by-step verdict on the same tapes
                 ca, cb = cert_lens(l)
                 lay = layout(proto, l, kca, kcb, ca, cb)
@@ -1088,6 +1106,10 @@ def donor_for(env, cfg, cache):
 
 def prep(cfg):
     cfg["_ca"], cfg["_cb"] = cert_lens(cfg["l"], cfg.get("cpad"))
+    if "A" in cfg.get("shortcert", ""):
+        cfg["_ca"] = 4
+    if "B" in cfg.get("shortcert", ""):
+        cfg["_cb"] = 4
 
 
 def selftest(env):
